@@ -120,7 +120,7 @@ Print Assumptions c06_video_frame_ts.
 Theorem c06_video_message : forall d s m c nals cl cl' plan s' evs,
   (lenN (rm_payload m) <=? 5) = false ->
   video_codec_id m = (match c with Avc => codec_id_avc | Hevc => codec_id_hevc end) ->
-  is_avc_key_seq_header m = false -> is_hevc_key_seq_header m = false ->
+  is_avc_key_seq_header m = false -> is_hevc_key_seq_header m = false -> enhanced_too_short m = false ->
   iterate_nalu_avcc (if (video_codec_id m =? codec_id_hevc) && is_enhanced_hevc_nalu m
                      then skipn (enhanced_nalu_index m) (rm_payload m) else skipn 5 (rm_payload m)) = (nals, None) ->
   r_spspps s = omap annexb_join4 cl ->
@@ -422,7 +422,7 @@ Print Assumptions c06_observer_view.
 Theorem c06_rtp_video : forall opus_fixed s m c seq nals,
   rm_type m = type_video -> q_sps s <> None ->
   (q_vpacker s = Some (c, seq) \/ (q_vpacker s = None /\ seq = 0 /\ c = if (q_vpt s =? pt_avc)%Z then Avc else Hevc)) ->
-  seq < 65536 ->
+  seq < 65536 -> enhanced_too_short m = false ->
   iterate_nalu_avcc (if (video_codec_id m =? codec_id_hevc) && is_enhanced_hevc_nalu m
                      then skipn (enhanced_nalu_index m) (rm_payload m) else skipn 5 (rm_payload m)) = (nals, None) ->
   Forall (fun u => is_aud c u = false -> rtp_unit_ok c u) nals ->
